@@ -102,7 +102,7 @@ class Acc:
     def outcome(self, k, v=1):
         self.outcomes[k] = self.outcomes.get(k, 0) + v
 
-    def violation(self, v, cap=40):
+    def violation(self, v, cap=6):
         if len(self.violations) < cap:
             self.violations.append(v)
         self.inc("violations_raw")
